@@ -106,7 +106,17 @@ func TestVerifDriver(t *testing.T) {
 					cfg.LoadBalancer.Strategy = "round_robin"
 					cfg.AdminAPI = config.AdminAPIConfig{Enabled: true, Port: 9091, AuthToken: unesc(w[2]),
 						IPAllowList: entries(w[3]), IPDenyList: entries(w[4])}
-					lb, err = loadbalancer.NewLoadBalancer(cfg)
+					// as the binary does: the configuration passes through Validate before anything is
+					// built from it (whatever Validate does to the admin section is part of the path)
+					cfg.Server.Port = 8080
+					cfg.Backends = []config.BackendConfig{{Name: "seed", Address: "http://127.0.0.1:9", Weight: 1}}
+					verr := cfg.Validate()
+					cfg.Backends = nil
+					if verr != nil {
+						err = verr
+					} else {
+						lb, err = loadbalancer.NewLoadBalancer(cfg)
+					}
 					if err == nil {
 						h = NewMux(lb, cfg, lb.GetMetricsCollector())
 						res = "ok"
